@@ -136,7 +136,7 @@ SPECIALS = [np.nan, np.inf, -np.inf, 5e-324, -0.0, 2.2250738585072014e-308 / 4,
 def gen_model(seed, ndims=3, nlevels=None, nfields=None, base=None, bf=4, maxsz=None,
               origin=None, aniso=True, names=None, payload="random", nfiles=None,
               shuffle=True, full_refine=False, sizes=None, base_blocks=(2, 4), time=None,
-              maxfiles=4, refine_frac=None, data_seed=None, uneven=False, free_regions=False):
+              maxfiles=4, refine_frac=None, data_seed=None, uneven=False, free_regions=False, region_unit=None):
     """payload: random | special | affine | tagged | positive | ramp
     sizes: when given, 'segments' tiling with box extents from that list (e.g. [16,24])"""
     rng = random.Random(seed)
@@ -191,7 +191,7 @@ def gen_model(seed, ndims=3, nlevels=None, nfields=None, base=None, bf=4, maxsz=
             # `sizes`: box edges are then NOT multiples of the smallest box extent (what real
             # AMReX grids with blocking factor 8 and 16/24/32-cell boxes look like)
             flat = sizes if not isinstance(sizes[0], (list, tuple)) else sizes[0]
-            u = int(np.gcd.reduce(flat))
+            u = int(region_unit) if region_unit else int(np.gcd.reduce(flat))
             if lv == 1:
                 host_lo, host_hi = [0] * ndims, [2 * g - 1 for g in m.grid_sizes[0]]
             else:
@@ -200,7 +200,8 @@ def gen_model(seed, ndims=3, nlevels=None, nfields=None, base=None, bf=4, maxsz=
             lo, hi = [], []
             for d in range(ndims):
                 room = host_hi[d] - host_lo[d] + 1
-                feas = [t for t in range(min(flat), room + 1, u) if _segments(rng, t, flat) is not None]
+                feas = [t for t in range(min(flat), room + 1, u) if _segments(rng, t, flat) is not None
+                        and room - t >= 0]
                 e = rng.choice(feas)
                 offs = list(range(0, room - e + 1, u))
                 odd = [o for o in offs if (host_lo[d] + o) % min(flat)] or offs
